@@ -866,7 +866,7 @@ namespace awkward {
 
   const ContentPtr
   ByteMaskedArray::num(int64_t axis, int64_t depth) const {
-    int64_t posaxis = axis_wrap_if_negative(axis);
+    int64_t posaxis = axis_wrap_if_negative(axis, depth);
     if (posaxis == depth) {
       Index64 out(1);
       out.setitem_at_nowrap(0, length());
@@ -891,7 +891,7 @@ namespace awkward {
 
   const std::pair<Index64, ContentPtr>
   ByteMaskedArray::offsets_and_flattened(int64_t axis, int64_t depth) const {
-    int64_t posaxis = axis_wrap_if_negative(axis);
+    int64_t posaxis = axis_wrap_if_negative(axis, depth);
     if (posaxis == depth) {
       throw std::invalid_argument(
         std::string("axis=0 not allowed for flatten") + FILENAME(__LINE__));
@@ -1035,7 +1035,7 @@ namespace awkward {
 
   const ContentPtr
   ByteMaskedArray::rpad(int64_t target, int64_t axis, int64_t depth) const {
-    int64_t posaxis = axis_wrap_if_negative(axis);
+    int64_t posaxis = axis_wrap_if_negative(axis, depth);
     if (posaxis == depth) {
       return rpad_axis0(target, false);
     }
@@ -1070,7 +1070,7 @@ namespace awkward {
   ByteMaskedArray::rpad_and_clip(int64_t target,
                                  int64_t axis,
                                  int64_t depth) const {
-    int64_t posaxis = axis_wrap_if_negative(axis);
+    int64_t posaxis = axis_wrap_if_negative(axis, depth);
     if (posaxis == depth) {
       return rpad_axis0(target, true);
     }
@@ -1223,7 +1223,7 @@ namespace awkward {
 
   const ContentPtr
   ByteMaskedArray::localindex(int64_t axis, int64_t depth) const {
-    int64_t posaxis = axis_wrap_if_negative(axis);
+    int64_t posaxis = axis_wrap_if_negative(axis, depth);
     if (posaxis == depth) {
       return localindex_axis0();
     }
@@ -1254,7 +1254,7 @@ namespace awkward {
       throw std::invalid_argument(
         std::string("in combinations, 'n' must be at least 1") + FILENAME(__LINE__));
     }
-    int64_t posaxis = axis_wrap_if_negative(axis);
+    int64_t posaxis = axis_wrap_if_negative(axis, depth);
     if (posaxis == depth) {
       return combinations_axis0(n, replacement, recordlookup, parameters);
     }
